@@ -2,15 +2,16 @@
 # usage: mutant_run.sh <seeded-id> <prop> [<prop>...]
 # Runs the quick checks against a scratch worktree of /repo HEAD with seeded/<id>/patch.diff applied
 # (VERIF_REPO points the checks at it; /repo itself is not touched; evidence goes to a scratch dir).
-# The Coq tree is copied too (VERIF_COQ), so regenerated files and rebuilt proofs never touch /verif/coq.
+# The Coq tree is copied too (VERIF_COQ), so regenerated files and rebuilt proofs never touch the coq directory.
+VH="$(cd "$(dirname "$0")/.." && pwd)"   # this copy of /verif (a vp-run snapshot works too)
 ID="$1"; shift
 W=/tmp/mw/$ID; EV=/tmp/mw/$ID.ev; CQ=/tmp/mw/$ID.coq
-mkdir -p /tmp/mw; rm -rf "$EV" "$CQ"; cp -a /verif/coq "$CQ"
+mkdir -p /tmp/mw; rm -rf "$EV" "$CQ"; cp -a $VH/coq "$CQ"
 git -C /repo worktree add -q "$W" HEAD || exit 9
 cp /repo/src/pyqasm/accelerate/linalg.c /repo/src/pyqasm/accelerate/*.so "$W/src/pyqasm/accelerate/" 2>/dev/null
-(cd "$W" && (git apply /verif/seeded/$ID/patch.diff 2>/dev/null || patch -p1 -s -F3 < /verif/seeded/$ID/patch.diff)) || { echo "$ID: patch does not apply"; git -C /repo worktree remove --force "$W"; exit 2; }
+(cd "$W" && (git apply $VH/seeded/$ID/patch.diff 2>/dev/null || patch -p1 -s -F3 < $VH/seeded/$ID/patch.diff)) || { echo "$ID: patch does not apply"; git -C /repo worktree remove --force "$W"; exit 2; }
 for prop in "$@"; do
-  out=$(cd /verif && VERIF_REPO="$W" VERIF_EVIDENCE="$EV" VERIF_COQ="$CQ" ./check "$prop" --tier quick 2>&1); rc=$?
+  out=$(cd "$VH" && VERIF_REPO="$W" VERIF_EVIDENCE="$EV" VERIF_COQ="$CQ" ./check "$prop" --tier quick 2>&1); rc=$?
   echo "== $ID $prop exit=$rc $(echo "$out" | grep -E "VIOLATION" | head -2 | tr '\n' ' ')"
   echo "$out" | grep -E "Traceback|Error" | head -3
 done
